@@ -171,6 +171,8 @@ pub struct Recorder {
     /// listener compares it with the log of the same sequence on a cache with one.
     pub pipe_log: Mutex<Vec<(u64, Id, bool)>>,
     pub flush_calls: AtomicUsize,
+    /// While set, `Pipe::flush` returns a future that never completes (a disk tier that is slow to accept).
+    pub slow_flush: std::sync::atomic::AtomicBool,
 }
 
 struct Listener {
@@ -234,6 +236,9 @@ impl Pipe for RecPipe {
         }
         drop(g);
         drop(pieces);
+        if self.rec.slow_flush.load(Ordering::SeqCst) {
+            return Box::pin(std::future::pending());
+        }
         Box::pin(async {})
     }
 }
@@ -276,6 +281,9 @@ pub enum Op {
     Resize { c: usize },
     EvictAll,
     Flush,
+    /// `flush()` against a pipe that does not complete: the future is polled once and dropped (a caller
+    /// that gives up, e.g. a timeout around `close()`).
+    FlushCancel,
     DropH { slot: usize },
     CloneH { slot: usize },
     /// get_or_fetch whose origin returns a fresh value at once; the runtime is driven to quiescence.
@@ -300,6 +308,7 @@ impl Op {
             Op::Resize { c } => format!("resize({c})"),
             Op::EvictAll => "evict_all".into(),
             Op::Flush => "flush".into(),
+            Op::FlushCancel => "flush_cancel".into(),
             Op::DropH { slot } => format!("drop(h{slot})"),
             Op::CloneH { slot } => format!("clone(h{slot})"),
             Op::Fetch { k, w, hold } => format!("fetch(k{k},w{w}{})", if hold { ",hold" } else { "" }),
@@ -339,6 +348,7 @@ impl Op {
             },
             "evict_all" => Op::EvictAll,
             "flush" => Op::Flush,
+            "flush_cancel" => Op::FlushCancel,
             "drop" => Op::DropH {
                 slot: num(parts.first()?)? as usize,
             },
@@ -425,6 +435,13 @@ fn eviction_config(a: &Algo) -> EvictionConfig {
             window_capacity_ratio: window,
             protected_capacity_ratio: protected,
             cmsketch_eps: 0.001,
+            cmsketch_confidence: 0.9,
+        }
+        .into(),
+        Algo::LfuSketch { window, protected, eps } => LfuConfig {
+            window_capacity_ratio: window,
+            protected_capacity_ratio: protected,
+            cmsketch_eps: eps,
             cmsketch_confidence: 0.9,
         }
         .into(),
@@ -1008,6 +1025,27 @@ impl Driver {
                 if !ready {
                     out.push(("X.flush-pending", "flush() did not complete although the pipe never blocks".into()));
                 }
+                let evs = self.take_events();
+                let piped = self.take_piped();
+                self.follow_bulk_evictions(&evs, &piped, None, "flush", true, &mut out);
+            }
+            Op::FlushCancel => {
+                let c2 = cache.clone();
+                self.rec.slow_flush.store(true, Ordering::SeqCst);
+                let r = guard("flush (cancelled)", &mut out, move || {
+                    let mut fut = Box::pin(c2.flush());
+                    let waker = tokio::sim::noop_waker();
+                    let mut cx = std::task::Context::from_waker(&waker);
+                    let ready = std::future::Future::poll(fut.as_mut(), &mut cx).is_ready();
+                    drop(fut);
+                    ready
+                });
+                self.rec.slow_flush.store(false, Ordering::SeqCst);
+                if r.is_none() {
+                    return out;
+                }
+                // Whatever left memory was handed to the pipe before the caller gave up: the same accounting as
+                // for a completed flush applies (every entry that is gone was notified and offered exactly once).
                 let evs = self.take_events();
                 let piped = self.take_piped();
                 self.follow_bulk_evictions(&evs, &piped, None, "flush", true, &mut out);
